@@ -1,5 +1,16 @@
 use super::*;
 
+/// The order in which the potential outputs of a key are checked for a repeat:
+/// last-listed first, but every non-modifier before any modifier.
+/// Reverse order alone is not enough because an output is listed only once:
+/// `(tap-hold 200 200 a S-a)` has the outputs `[a, lsft]`,
+/// and with `S-a` held the repeat must be for `a`, not for shift.
+fn repeat_check_order(outputs: &[OsCode]) -> impl Iterator<Item = OsCode> + '_ {
+    let non_mods = outputs.iter().rev().copied().filter(|o| !o.is_modifier());
+    let mods = outputs.iter().rev().copied().filter(|o| o.is_modifier());
+    non_mods.chain(mods)
+}
+
 impl Kanata {
     /// This compares the active keys in the keyberon layout against the potential key outputs for
     /// corresponding physical key in the configuration. If any of keyberon active keys match any
@@ -41,7 +52,7 @@ impl Kanata {
             held_layer_active = true;
             if let Some(outputs_for_key) = self.key_outputs[usize::from(layer)].get(&event.code) {
                 log::debug!("key outs for active layer-while-held: {outputs_for_key:?};");
-                for osc in outputs_for_key.iter().rev().copied() {
+                for osc in repeat_check_order(outputs_for_key) {
                     let kc = osc.into();
                     if self.cur_keys.contains(&kc)
                         || self.unshifted_keys.contains(&kc)
@@ -70,7 +81,7 @@ impl Kanata {
             // 2. current layer is layer-while-held but did not find a match in the code above, e.g. a
             //    transparent key was pressed.
             log::debug!("key outs for default layer: {outputs_for_key:?};");
-            for osc in outputs_for_key.iter().rev().copied() {
+            for osc in repeat_check_order(outputs_for_key) {
                 let kc = osc.into();
                 if self.cur_keys.contains(&kc)
                     || self.unshifted_keys.contains(&kc)
